@@ -283,6 +283,14 @@ def dropout(c):
     m = nnx.Dropout(rate=c['rate'], broadcast_dims=bd, deterministic=c['deterministic'])
     return out(m(x, rngs=nnx.Rngs(dropout=c['seed'])))
   res['nnx_call_rngs'] = safe(nx_key)
+  # the key given explicitly, and the mask drawn independently of the layer for that key on the broadcast shape
+  key2 = jax.random.key(c['seed'] + 1000)
+  res['linen_rng'] = safe(lambda: out(nn.Dropout(rate=c['rate'], broadcast_dims=bd, deterministic=c['deterministic']).apply({}, x, rng=key2)))
+  bshape = list(x.shape)
+  for d in bd:
+    bshape[d] = 1
+  if 0.0 < c['rate'] < 1.0:
+    res['bits_rng'] = [bool(v) for v in np.asarray(jax.random.bernoulli(key2, p=1.0 - c['rate'], shape=bshape)).reshape(-1)]
   return res
 
 
